@@ -38,6 +38,9 @@ FIXED = [
  ("C19", "C19-rename-presence", "rename treated an explicit --regexp none", "`gotree rename -e none -b none` (the documented defaults) was treated as a regular-expression rename, unlike omitting the options (cmd.Flags().Changed)"),
  ("C19", "C19-repopulate-presence", "repopulate treated an explicit --id-groups none", "`gotree repopulate -g none` (the documented default) tried to read the file none, unlike omitting the option (cmd.Flags().Changed)"),
  ("C12", "C12-asr-lowercase", "gave lower-case nucleotides no state", "asr counted one spurious step per lower-case tip character: tree (a,b,c), a=b=c=\"a\" gave steps 3 instead of 0 (IUPAC table looked up without upper-casing)"),
+ ("C20", "C20-sample-reservoir-index", "sample without replacement drew the reservoir index", "`gotree sample -n 1` on a 2-tree file always returned the second tree (400 of 400 seeds): reservoir index drawn with rand.Intn(totaltrees) instead of totaltrees+1"),
+ ("C20", "C20-prune-reservoir-index", "prune --random drew the reservoir index", "`gotree prune --random 1` on 4 tips never selected the first tip (0 of 400 seeds): rand.Intn(i) instead of i+1"),
+ ("C16", "C16-unrooted-minimum", "unrooted tree generators accepted sizes", "RandomUniform/Yule/CaterpillarBinaryTree(2,false) returned a one-branch tree together with the RerootFirst error although 2 was the stated minimum; `gotree generate balancedtree -d 1` printed Tip0:0.37Tip1; which gotree cannot read back"),
  ("C08", "C08-sametree-one-directional", "Compare reported a strict contraction", "tree.Compare reported a strict contraction of the reference as identical: ref ((a,b),c,d), compared (a,b,c,d) gave Tree1=1, Tree2=0, Sametree=true"),
  ("C09", "C09-threshold-rounding", "Consensus kept bipartitions whose frequency equals", "Consensus kept a split present in 29 of 50 trees at cutoff 0.58 (int(0.58*50) = 28), although 29/50 is not greater than 0.58"),
  ("C09", "C09-rooted-double-count", "Consensus counted the root bipartition", "Consensus counted the root split of a rooted input twice: the single tree ((t1,t2),(t0,t3)) at cutoff 0.5 gave the star tree; [(t0,t3,(t1,t2)), ((t1,t2),(t0,t3))] at cutoff 1 lost the split present in every tree"),
@@ -49,6 +52,7 @@ FIXED = [
  ("C13", "C13-phyloxml-firsttree-nil", "PhyloXML FirstTree assigned a shadowed", "PhyloXML FirstTree returned (nil, nil): reading 'the first tree' of a PhyloXML file failed with 'No tree in the input PhyloXML file' although the iterator delivers it"),
 ]
 OPEN = [
+ ("C20", "C20-uniform-rooted-root-branch", "RandomUniformBinaryTree(n, true) never inserts a tip above the root: 2*4*...*(2n-4) choice vectors for (2n-3)!! rooted labelled topologies; with n=3 the topology ((Tip0,Tip1),Tip2) is never produced (199/201/0 over 400 seeds)"),
  ("C19", "C19-setrand-presence", "`gotree brlen setrand` draws the mean in [min-mean,max-mean] only when BOTH options are present on the command line (cmd.Flags().Changed): passing their documented defaults --min-mean 0.001 --max-mean 0.05 explicitly gives different branch lengths than omitting them"),
  ("C10", "C10-root-branch-beside-tip", "rooted reference whose root has a tip child: the other root branch is an inner branch with a one-taxon side; FBP gives it (bootstrap trees rooted the same way)/n instead of 1 and TBE leaves it without support (-1); witness ref ((a,(b,(c,d)))), boots [(a,b,(c,d))]"),
  ("C17", "C17-nni-root-branch", "NNIRearranger skips the inner branch through a degree-2 root: rooted ((a,b),(c,d)) gets 0 NNI proposals instead of 2 (2*(k-1) proposals for k inner branches whenever both root children are inner nodes)"),
